@@ -230,6 +230,11 @@ def run(ctx):
     # 2. regression witness V20 (list arguments of spawn by reference)
     v20_lines = [f"w {i} {j} {3 + j}" for i in (1, 2) for j in range(20)] + [f"m {j}" for j in range(20)]
     run_batch(ctx, [plain_prog(V20_SRC, v20_lines, 3)], "C17 regression", False, 8, race=race)
+    # 2a. many spawns with arguments from one core: the arguments leave the spawner's operand stack (a loop of 300 spawns
+    # stays within the default stack limit of the harness)
+    run_batch(ctx, [plain_prog('fn w(id: int, tag: str, l: [int]) { if id == 299 { println("last", tag, l.len()); } }\n'
+                               'fn main() { let n = 0; for i in 0..300 { spawn w(i, "t", [i, i]); n += 1; } println("spawned", n); }\n',
+                               ["last t 2", "spawned 300"], 301)], "C17 many spawns", False, 8, race=False)
     # 2b. staggered spawns: late cores are spawned after earlier ones were collected while others still run
     rng = ctx.rng
     stag = [plain_prog('fn quick(id: int) { println("quick", id); }\nfn slow(id: int, t: float) { time.sleep(t); println("slow", id); }\n'
